@@ -570,7 +570,7 @@ pub fn run(tier: &str) -> i32 {
     o.cov("distinct_outcomes", json!(all_outcomes.len()));
     o.cov("exhaustive", json!(exhaustive));
     // E3 part
-    crate::e3::fold_e3(&mut o, "C05", tier, &crate::props::c05e3::bodies(tier), "e3_");
+    crate::e3::fold_e3(&mut o, "C05", tier, &crate::e3::with_variants(crate::props::c05e3::bodies(tier), tier), "e3_");
     o.cov("rule", json!("E1: every enabled program up to the per-pass depth over writes/removes/clear/ingestion/rotation/every queued worker message/major compaction interleaved with view operations {open snapshot, clone it, open Keyspace::iter/range/prefix and the snapshot variants, advance an iterator from either end, begin a write transaction of either kind (also two at one instant), write and commit it, close any view in any order}, at most 2-3 live views; after EVERY step every live view's full observation must equal the model clone frozen at its creation (plus its own writes), iterators must yield exactly the frozen range no matter when they are advanced, no read may error or panic; the snapshot tracker's table is monitored, and whenever a live instant is no longer registered (or the GC watermark passed it) a fixed garbage-collecting continuation (overwrite all, flush, compact) is run and the views are observed again. E3: see e3_bodies."));
     o.assumptions = vec![
         "at most 3 simultaneous views; sequentially consistent exploration in the E3 part".into(),
@@ -588,7 +588,7 @@ pub fn replay(v: &serde_json::Value) -> i32 {
         let tier = v["variant"]["tier"].as_str().unwrap_or("quick");
         let bi = v["variant"]["body_index"].as_u64().unwrap_or(0) as usize;
         let choices: Vec<usize> = v["variant"]["choices"].as_array().map(|a| a.iter().filter_map(|c| c.as_u64().map(|c| c as usize)).collect()).unwrap_or_default();
-        return match crate::props::c05e3::bodies(tier).get(bi) {
+        return match crate::e3::with_variants(crate::props::c05e3::bodies(tier), tier).get(bi) {
             Some(b) => crate::e3::replay_schedule(&*b.body, &choices),
             None => 2,
         };
